@@ -178,7 +178,7 @@ def run(chk):
             # aimed at a jump that one verification enters at two offsets
             bufs.append(b".." + a + b"..")
             bufs.append(a)
-        meta = {"shape": shape(toks) + ("/two-entry-jump" if g.aim else "")}
+        meta = {"shape": shape(toks) + ("/aimed" if g.aim else "")}
         if chained_variable_piece(toks):
             meta["known_missed_key"] = "chained-piece-variable-length"
         if fast:
